@@ -754,6 +754,13 @@ def hostile_inputs(ctx):
     for dct in docs[:: (1 if ctx.thorough else 5)]:
         go(dct.encode("utf-8"), {"from_encoding": rng.choice(["utf-8", "latin-1", "utf-16", "cp037", "koi8-r", "shift-jis", "idna"])})
     ctx.sample({"charref_doc": short(docs[rng.randrange(len(docs))])})
+    # deep nesting under elements that put the parser into a special mode (whitespace-preserving, string containers):
+    # the constructor must not fail (RecursionError is "another failure") however deep the document is
+    for outer in ("pre", "textarea", "template", "rt", "rp", "div"):
+        for n in ((400, 1300) if ctx.thorough else (450,)):
+            go("<%s>" % outer + "<a>" * n + "x", {}, tag="deep-nesting")
+            go("<%s>" % outer + "<b><i>" * (n // 2) + "x" + "</i></b>" * (n // 2) + "</%s>y" % outer, {}, tag="deep-nesting")
+    ctx.count("deep_nesting_docs", 12)
     # every truncation of the constructs
     n_tr = 0
     for c in CONSTRUCTS:
